@@ -199,6 +199,16 @@ def witnesses(tier="quick", seed=0):
         item("struct", [["error = JsonError"], [cf, 'tag = "t"']]), item("struct", [["error = JsonError"], [cf]]))
     add("tag_on_struct_with_from_two", "tag on a struct", "container",
         item("struct", [["error = JsonError"], ['tag = "t"'], [cf]]), item("struct", [["error = JsonError"], [cf]]))
+    # the same cause beside every attribute a struct may legally carry, before and after it, in one attribute or two: a
+    # validation that looks only at the first (or last) restricted attribute it meets must not let the other through
+    for comp in ("rename_all = camelCase", "deny_unknown_fields", "validate = validate -> ConvErr", "rename_all = lowercase, deny_unknown_fields"):
+        cname = comp.split(" ")[0].split("=")[0] + ("_both" if "," in comp else "")
+        for tag_first in (True, False):
+            for place in ("same", "two"):
+                pair = ['tag = "t"', comp] if tag_first else [comp, 'tag = "t"']
+                ca = [["error = JsonError"]] + ([pair] if place == "same" else [[pair[0]], [pair[1]]])
+                add("tag_on_struct_beside_%s_%s_%s" % (cname, "tag1" if tag_first else "tag2", place), "tag on a struct", "container",
+                    item("struct", ca), item("struct", [["error = JsonError"], [comp]]))
     # ---------------------------------------------------------------- container try_from with rename_all / tag / deny_unknown_fields
     for other, kind in (("rename_all = camelCase", "struct"), ("deny_unknown_fields", "struct"), ('tag = "t"', "tagged"), ("rename_all = lowercase", "unit")):
         for place in ("same", "two"):
@@ -232,8 +242,19 @@ def witnesses(tier="quick", seed=0):
         item("struct", [["error = JsonError"]], fattrs=[["try_from(String) = f_try_from"]]), item("struct", [["error = JsonError"]], fattrs=[[ft]]))
     add("malformed_leading_comma", "malformed attribute syntax", "container",
         item("struct", [[", error = JsonError"]]), item("struct", [["error = JsonError"]]))
+    # try_from beside two of the attributes it excludes (each alone is covered above): whichever the validation meets first
+    for a_, b_, kind in (("rename_all = camelCase", "deny_unknown_fields", "struct"), ("deny_unknown_fields", "rename_all = camelCase", "struct"),
+                         ('tag = "t"', "rename_all = camelCase", "tagged"), ("rename_all = camelCase", 'tag = "t"', "tagged")):
+        for pos in (0, 1, 2):
+            parts = [a_, b_]
+            parts.insert(pos, ct)
+            add("tryfrom_with_two_%s_%s_%s_%d" % (a_.split(" ")[0], b_.split(" ")[0], kind, pos), "container try_from with rename_all/tag/deny_unknown_fields", "container",
+                item(kind, [["error = JsonError"]] + [[x] for x in parts]), item(kind, [["error = JsonError"], [ct]]))
     if tier == "thorough":
         ws += generated(seed, 500)
+    else:
+        # a fixed sample of the grammar-generated corpus: one cause in a random legal context
+        ws += generated(0, 60)
     return ws
 
 
